@@ -512,6 +512,8 @@ p_uthread_local_free (PUThreadKey *key)
 	if (P_UNLIKELY (key == NULL))
 		return;
 
+	/* The native TLS key stays allocated (see the documentation), its holder doesn't have to */
+	p_free (key->key);
 	p_free (key);
 }
 
